@@ -17,6 +17,7 @@ func init() {
 			"mod-2^h arithmetic and the identity/composition/inverse laws. Non-trivial = some shift component non-zero; distinct by (ID, both shifts).",
 		Assume: []string{"reference: ((x+dx) mod 2^h, (y+dy) mod 2^h, f+dv) in int64", "shifts are bounded to 4 world widths because the library wraps negative indices by repeated addition"},
 		N:      tierN(400_000, 12_000_000),
+		Batch:  func(t string) int64 { return tierN(400_000, 12_000_000)(t)/16 + 1 },
 		Floor:  tierN(1000, 10000),
 		Run:    runC07,
 	})
@@ -51,6 +52,32 @@ func genShiftV(r *core.Rng) int64 {
 
 func runC07(c *core.Case) {
 	r := c.R
+	if r.P(0.01) { // consecutive calls on two IDs that collide under a common 32-bit string hash
+		pairs := hashCollisionPairs()
+		if len(pairs) > 0 {
+			p := pairs[r.Intn(len(pairs))]
+			if r.Bool() {
+				p[0], p[1] = p[1], p[0]
+			}
+			dx, dy, dv := r.Range(-2, 2), r.Range(-2, 2), r.Range(-2, 2)
+			c.Tag("hash-colliding-consecutive-ids")
+			c.NonTrivial()
+			c.KS(p[0], p[1])
+			c.KI(dx, dy, dv)
+			var got [2]string
+			c.Desc = func() any { return map[string]any{"consecutive_ids": p, "shift": []int64{dx, dy, dv}, "results": got} }
+			for k := 0; k < 2; k++ {
+				id, _ := ref.ParseExt(p[k])
+				got[k] = operated.GetShiftingSpatialID(p[k], dx, dy, dv)
+				c.Call()
+				if want := ref.Shift(id, dx, dy, dv).Ext(); got[k] != want {
+					c.Fail("shift-value-after-colliding-id", nil, "GetShiftingSpatialID(%s,%d,%d,%d) called right after the same shift of %s = %q, modular translation gives %q", p[k], dx, dy, dv, p[1-k], got[k], want)
+					return
+				}
+			}
+			return
+		}
+	}
 	id := genID(r, 0, 35, 0, 35)
 	if r.P(0.05) {
 		// f beyond the zoom's nominal range: the shift is unbounded vertically, such IDs are results of earlier shifts
@@ -65,6 +92,20 @@ func runC07(c *core.Case) {
 	}
 	if dy1+dy2 > 4*n || dy1+dy2 < -4*n {
 		dy2 = -dy2
+	}
+	if r.P(0.06) {
+		// decimal digit-length boundaries of the resulting vertical index (10^k-2 .. 10^k+2, k up to 18): a formatter that
+		// sizes its buffer from the magnitude goes wrong exactly there
+		target := decimalEdge(r, 1, 18)
+		if r.Bool() {
+			target = -target
+		}
+		dv1 = target - id.F
+		if r.Bool() { // reach the boundary with the second shift instead
+			dv1, dv2 = r.Range(-1000, 1000), 0
+			dv2 = target - id.F - dv1
+		}
+		c.Tag("decimal-boundary-f")
 	}
 	s := id.Ext()
 	var got1, got12, gotSum, gotBack, gotZero string
